@@ -142,6 +142,45 @@ def base_loop_table(run, model, rule="C04.accept-all"):
         run.check(ok, rule, nf.fi.qual + ":empty-base-part", "with the accept-all flag set the inherited groups are dropped before the collapse", "the accept-all flag does not empty the inherited precondition groups", nf.fi.loc())
 
 
+def groups_kept(run, model, rule="C04.groups-kept"):
+    """Every inherited group and the own group end up in the collapsed preconditions: the disjunction is over *all* of
+    them.  A loop or comprehension that leaves groups out under a condition (de-duplication by content, by identity of
+    the contracts, by "already covered") drops an alternative -- and with it calls the class must accept."""
+    fi = model.func("_metaclass._collapse_preconditions")
+    returned = set()
+    for sub in ast.walk(fi.node):
+        if isinstance(sub, ast.Return) and sub.value is not None:
+            for x in ast.walk(sub.value):
+                if isinstance(x, ast.Name):
+                    returned.add(x.id)
+    # close over plain copies / concatenations feeding the returned names
+    for _ in range(3):
+        for st in ast.walk(fi.node):
+            if isinstance(st, ast.Assign) and any(isinstance(tg, ast.Name) and tg.id in returned for tg in st.targets):
+                for x in ast.walk(st.value):
+                    if isinstance(x, ast.Name):
+                        returned.add(x.id)
+    bad = None
+    n = 0
+    for lp in ast.walk(fi.node):
+        if isinstance(lp, (ast.For, ast.While)):
+            appends = [c for c in ast.walk(lp) if isinstance(c, ast.Call) and isinstance(c.func, ast.Attribute) and c.func.attr in ("append", "extend", "insert") and isinstance(c.func.value, ast.Name) and c.func.value.id in returned]
+            if not appends:
+                continue
+            n += 1
+            jumps = [j for j in ast.walk(lp) if isinstance(j, (ast.Continue, ast.Break))]
+            nested = [c for c in appends if any(isinstance(i_, ast.If) and any(x is c for x in ast.walk(i_)) for i_ in ast.walk(lp))]
+            if jumps or nested:
+                bad = bad or (lp, "the loop at line %d adds a group to the collapsed preconditions only under a condition (`%s`): a group that is left out is an alternative the class no longer accepts" % (lp.lineno, first_line(jumps[0] if jumps else nested[0])))
+        if isinstance(lp, (ast.ListComp, ast.GeneratorExp)) and any(g.ifs for g in lp.generators):
+            # a filtered comprehension over the groups (not over the contracts of one group, which is a copy)
+            parents_ret = any(isinstance(r, ast.Return) and r.value is not None and any(x is lp for x in ast.walk(r.value)) for r in ast.walk(fi.node)) or any(isinstance(st, ast.Assign) and any(isinstance(tg, ast.Name) and tg.id in returned for tg in st.targets) and any(x is lp for x in ast.walk(st.value)) for st in ast.walk(fi.node))
+            if parents_ret:
+                n += 1
+                bad = bad or (lp, "a filtered comprehension (`%s`) decides which groups reach the collapsed preconditions: a group that is left out is an alternative the class no longer accepts" % first_line(lp))
+    run.check(bad is None, rule, fi.qual, "no group is left out of the collapsed preconditions under a condition (%d loop(s) / filter(s) looked at)" % n, bad[1] if bad else "", fi.loc(bad[0]) if bad else fi.loc(), None, first_line(bad[0]) if bad else None)
+
+
 def weaken_table(run, model, rule="C04.weaken"):
     fi = model.func("_metaclass._collapse_preconditions")
     flow = get_flow(model, fi)
@@ -382,9 +421,22 @@ def _accessor_rows(run, model):
             for kw in sub.keywords:
                 if kw.arg in ("fget", "fset", "fdel") and isinstance(kw.value, ast.Name):
                     role_of_local[kw.value.id] = kw.arg
+    # a local bound once to ``value.<accessor>`` stands for that accessor (the read-only attributes read once)
+    stores = {}
+    for sub in ast.walk(nfp.fi.node):
+        if isinstance(sub, ast.Name) and isinstance(sub.ctx, ast.Store):
+            stores[sub.id] = stores.get(sub.id, 0) + 1
+    alias = {}
+    for sub in ast.walk(nfp.fi.node):
+        if isinstance(sub, (ast.Assign, ast.AnnAssign)) and isinstance(getattr(sub, "value", None), ast.Attribute) and sub.value.attr in ("fget", "fset", "fdel"):
+            for tg in (sub.targets if isinstance(sub, ast.Assign) else [sub.target]):
+                if isinstance(tg, ast.Name) and stores.get(tg.id) == 1:
+                    alias[tg.id] = sub.value
     for st in ast.walk(nfp.fi.node):
         if isinstance(st, ast.If) and isinstance(st.test, ast.Compare) and len(st.test.ops) == 1 and isinstance(st.test.ops[0], ast.Eq):
             r = st.test.comparators[0]
+            if isinstance(r, ast.Name) and r.id in alias:
+                r = alias[r.id]
             if isinstance(r, ast.Attribute) and r.attr in ("fget", "fset", "fdel") and isinstance(st.body[0], ast.Assign):
                 acc = r.attr
                 a = st.body[0]
@@ -411,6 +463,7 @@ def run(run, model):
     run.do(meta.snapshot_provenance, model, "C04.snap-prov")
     run.do(base_loop_table, model)
     run.do(meta.per_member_state, model)
+    run.do(groups_kept, model)
     run.do(weaken_table, model)
     run.do(invariant_provenance, model, "C04.inv-prov", "C04.inv-own")
     run.do(structure_rules, model)
